@@ -214,7 +214,7 @@ META = {
                 "between external events. Oracle at quiescence decided from scheduler/simulator state (nothing enabled, nothing in "
                 "flight), never from a timeout: a message sealed after the sender's announcement to the receiver's member is delivered "
                 "exactly once with the original payload, the main queue is empty, chain keys of all announced devices are known "
-                "everywhere (C05 b).",
+                "everywhere (C05 b). (Q) The two queues the pipeline is built on (simple queue with a waiting consumer, priority queue under concurrent Add/Next/NextAll) under the same scheduler, with the lost-wake-up and linearizability oracles.",
         "design_ref": "section 5, C08 and C05(b); section 4",
         "note": "required deliveries are those for which the sender had already appended its announcement to the receiver's member "
                 "when it sealed (ground truth read from the sender's index at send time); no drops/restarts in this scenario so one "
